@@ -40,3 +40,12 @@ Proof. vm_compute. reflexivity. Qed.
 Lemma real_lookbacks : go_protocol_round_back = protocol_round_back /\
                        forall e, In e go_lookbacks -> lookback_ok e = true.
 Proof. split; [vm_compute; reflexivity|]. apply forallb_forall. exact real_lookbacks_ok. Qed.
+
+(* inventory of the LRU caches the vote verification path goes through (decoded BLS keys,
+   decoded BLS signatures, decoded main keys).  The model has no cache: a validator counts once
+   per container whatever the caches hold.  The harness steers the distance between two copies
+   of a vote around these capacities (capacity-1, capacity, capacity+1, 2*capacity) inside
+   look-back sets with more validators than the largest capacity. *)
+Definition max_cache_size : N := fold_right N.max 0 go_cache_sizes.
+Lemma real_cache_sizes : length go_cache_sizes = 3%nat /\ forallb (fun c => 0 <? c) go_cache_sizes = true /\ 0 < max_cache_size.
+Proof. repeat split; vm_compute; reflexivity. Qed.
